@@ -320,7 +320,8 @@ func (s *MemoryBackend) read(ctx context.Context, store string, filter storage.R
 		from, err = strconv.Atoi(options.Pagination.From)
 		if err != nil {
 			telemetry.TraceError(span, err)
-			return nil, err
+			// a token that is not an offset was not issued by this datastore
+			return nil, storage.ErrInvalidContinuationToken
 		}
 	}
 
@@ -688,7 +689,8 @@ func (s *MemoryBackend) ReadAuthorizationModels(ctx context.Context, store strin
 	if options.Pagination.From != "" {
 		from, err = strconv.Atoi(options.Pagination.From)
 		if err != nil {
-			return nil, "", err
+			// a token that is not an offset was not issued by this datastore
+			return nil, "", storage.ErrInvalidContinuationToken
 		}
 	}
 
@@ -885,7 +887,8 @@ func (s *MemoryBackend) ListStores(ctx context.Context, options storage.ListStor
 	if options.Pagination.From != "" {
 		from, err = strconv.Atoi(options.Pagination.From)
 		if err != nil {
-			return nil, "", err
+			// a token that is not an offset was not issued by this datastore
+			return nil, "", storage.ErrInvalidContinuationToken
 		}
 	}
 	pageSize := storage.DefaultPageSize
